@@ -4,6 +4,7 @@ package main
 
 import (
 	"fmt"
+	"go/ast"
 	"go/token"
 	"go/types"
 	"strings"
@@ -608,6 +609,26 @@ func (fx *Fx) specIdent(env *SpecEnv, name string) Val {
 	case *types.Nil:
 		return Val{T: "0", S: "Int", GT: types.Typ[types.UntypedNil]}
 	}
+	if obj == nil {
+		// a local declared in a nested scope: usable where the state holds exactly one live variable of that name
+		var found types.Object
+		n := 0
+		for o := range st.vars {
+			if o.Name() == name {
+				found = o
+				n++
+			}
+		}
+		if n == 1 {
+			if c.boxedVars[found] {
+				sfail("variable %s is boxed; not usable by name here", name)
+			}
+			return Val{T: st.vars[found], S: c.sortOf(found.Type()), GT: found.Type()}
+		}
+		if fx.fi != nil && fx.localNamed(name) {
+			sfail("variable %s is not in scope here", name)
+		}
+	}
 	// 0-ary spec function / spec constant
 	if sf, ok := fx.w.SFuncs[name]; ok && len(sf.Params) == 0 {
 		return fx.specFuncApp(env, sf, nil)
@@ -830,6 +851,49 @@ func (fx *Fx) specCall(env *SpecEnv, e *SCall) Val {
 				return Val{T: "true", S: "Bool", GT: boolT}
 			}
 			return Val{T: "(and " + strings.Join(parts, " ") + " true)", S: "Bool", GT: boolT}
+		case "count", "countOn":
+			// count(Kind, T | code("...") ) : events of this kind so far whose payload has dynamic type T / whose code is given
+			// countOn(Kind, ch)           : events of this kind so far on channel / tracer / wait group ch
+			kid, ok := e.Args[0].(*SIdent)
+			if !ok || evKinds[kid.Name] == 0 {
+				sfail("%s(): first argument must be an event kind", id.Name)
+			}
+			k := evKinds[kid.Name]
+			heapName := "CNT"
+			var idx string
+			if id.Name == "countOn" {
+				heapName = "CNC"
+				x := arg(1)
+				if x.S == "Iface" {
+					idx = "(i_val " + x.T + ")"
+				} else {
+					idx = x.T
+				}
+			} else if len(e.Args) == 1 {
+				idx = "0"
+			} else if k == 1 || k == 2 || k == 4 {
+				t := env.typeOf(sexprTypeText(e.Args[1]))
+				idx = fmt.Sprint(c.typeTag(t))
+			} else {
+				idx = arg(1).T
+			}
+			return Val{T: fmt.Sprintf("(select (select %s %d) %s)", st.heap(heapName, cntSort), k, idx), S: "Int", GT: intT}
+		case "athead":
+			// athead(N, e): e evaluated at the head of the current iteration of loop N
+			n, ok := e.Args[0].(*SInt)
+			if !ok {
+				sfail("athead(N, e): N must be a loop ordinal")
+			}
+			hs := fx.loopHeads[n.V]
+			if hs == nil {
+				sfail("athead(%s, ...): not inside loop %s", n.V, n.V)
+			}
+			nn := *env
+			nn.st, nn.inOld = hs, false
+			return fx.specEval(&nn, e.Args[1])
+		case "ncallsCode":
+			// ncallsCode(code("...")): calls made so far through function values whose code is the given literal / function
+			return Val{T: fmt.Sprintf("(select %s %s)", st.heap("NC", "(Array Int Int)"), arg(0).T), S: "Int", GT: intT}
 		case "ncalls":
 			// ncalls(f): number of calls made so far through function value f (ghost counter)
 			c.declareFun("fn_code", []string{"Int"}, "Int")
@@ -1013,7 +1077,7 @@ func (fx *Fx) specCall(env *SpecEnv, e *SCall) Val {
 			}
 			var parts []string
 			for _, k := range sortedKeys(c.heapSorts()) {
-				if skip[k] || k == "NC" {
+				if skip[k] || k == "NC" || k == "CNT" || k == "CNC" {
 					continue
 				}
 				srt := c.heapSorts()[k]
@@ -1404,4 +1468,19 @@ func sexprString(e SExpr) string {
 		return sexprString(x.X) + ".(" + x.T + ")"
 	}
 	return fmt.Sprintf("%T", e)
+}
+
+// localNamed: the function under analysis declares a local variable of this name somewhere.
+func (fx *Fx) localNamed(name string) bool {
+	found := false
+	var root ast.Node = fx.fi.Decl
+	ast.Inspect(root, func(n ast.Node) bool {
+		if id, ok := n.(*ast.Ident); ok && id.Name == name {
+			if _, isVar := fx.info.Defs[id].(*types.Var); isVar {
+				found = true
+			}
+		}
+		return !found
+	})
+	return found
 }
